@@ -33,3 +33,37 @@ void harness_get_more_chars(void) {
     if (r == CIF_OK) REACH("more"); if (r == CIF_EOF) REACH("eof"); if (r == CIF_MEMORY_ERROR) REACH("oom");
     if (r == CIF_OK && s->buffer_size != in.size) REACH("grown"); if (r == CIF_OK && s->buffer_size == in.size && in.ts > 0 && s->text_start == s->buffer) REACH("compacted");
 }
+
+/* ---- get_first_char ------------------------------------------------------------------------------------------------------------ */
+#ifndef VERIF_REPLAY
+int nondet_int(void);
+static ssize_t fc_read_func(void *src, UChar *dest, ssize_t count, int *err) {
+    unsigned k = g_fc_calls < 2 ? g_fc_calls : 1;
+    ssize_t n = g_fc_n[k] < count ? g_fc_n[k] : count;
+    g_fc_count[k] = count; g_fc_calls++;
+    if (n < 0) { *err = CIF_ERROR; return n; }
+    if (n > 0) dest[0] = g_fc_ch[k];
+    return n;
+}
+static int fc_err(int code, size_t line, size_t column, const UChar *text, size_t length, void *data) {
+    __CPROVER_assert(line >= 1 && (text == NULL || __CPROVER_r_ok(text, length * sizeof(UChar))), "C03 error callback: line >= 1 and text readable for the stated length");
+    return nondet_int();
+}
+void harness_get_first_char(void) {
+    struct scanner_s *s = malloc(sizeof *s); __CPROVER_assume(s != NULL);
+    size_t size = (size_t)nondet_int(); __CPROVER_assume(size >= 2 && size <= MAXBUF);
+    s->buffer = malloc(size * sizeof(UChar)); __CPROVER_assume(s->buffer != NULL);
+    s->buffer_size = size; s->buffer_limit = 0; s->next_char = s->buffer; s->text_start = s->buffer; s->tvalue_start = s->buffer;
+    s->at_eof = 0; s->read_func = fc_read_func; s->char_source = NULL; s->error_callback = fc_err; s->user_data = NULL;
+    __CPROVER_assume(s->char_class[0x0D] != NO_CLASS);   /* CR is an end-of-line character in every scanner table */
+    g_fc_calls = 0; g_fc_n[0] = nondet_int(); g_fc_n[1] = nondet_int(); g_fc_ch[0] = (UChar)nondet_int(); g_fc_ch[1] = (UChar)nondet_int();
+    __CPROVER_assume(g_fc_n[0] >= -1 && g_fc_n[0] <= 1 && g_fc_n[1] >= -1 && g_fc_n[1] <= MAXBUF);
+    int r = get_first_char(s);
+    if (r == CIF_OK && g_fc_calls == 2 && g_fc_n[1] > 0) {
+        size_t delivered = (size_t)(g_fc_n[1] < g_fc_count[1] ? g_fc_n[1] : g_fc_count[1]);
+        POST(s->buffer_limit == 1 + delivered - (g_fc_ch[1] == 0x0A ? 1 : 0), "C08 an input starting with CR keeps every unit the source delivered (CR LF counted once)");
+        REACH("cr-first");
+    }
+    if (r == CIF_OK && g_fc_calls == 1) { POST(s->buffer_limit == 1, "C08 first unit buffered"); REACH("plain-first"); }
+}
+#endif
